@@ -288,7 +288,7 @@ Section C07.
   Definition rm_am (s : shell N) : list Z :=
     if Nat.ltb 1 (List.length (am s)) then kept_am is0 (am s) (coefs s) else am s.
   Definition rm_shell (s : shell N) : shell N :=
-    mkShell (ftype s) (region s) (rm_am s) (exps s) (filter keepc (coefs s)).
+    mkShell (rm_ftype is0 s) (region s) (rm_am s) (exps s) (filter keepc (coefs s)).
 
   Lemma rm_free_in : forall (s s' : shell N), In s' (rm_free_shell is0 s) ->
     s' = rm_shell s /\ filter keepc (coefs s) <> [].
